@@ -213,8 +213,8 @@ def o_join(a, b, f):
     if kind == 'bitvec':
         same = pa[1] == pb[1] and pa[2] == pb[2]
         return ('O', 'bitvec', (f(pa[0], pb[0]), pa[1] if same else None, pa[2] if same else None))
-    if kind == 'cursor':
-        return ('O', 'cursor', (f(pa[0], pb[0]),))
+    if kind in ('cursor', 'tablestate'):
+        return ('O', kind, (f(pa[0], pb[0]),))
     if pa == pb:
         return a
     return ('T', None, None)
